@@ -121,10 +121,14 @@ Definition dec_cond (s : sexp) : option cond :=
 Definition dec_dir (s : sexp) : option directive :=
   match s with
   | SL [SSym t] => if String.eqb t "other" then Some DOther else None
-  | SL [SSym t; c] =>
-      if String.eqb t "skip" then option_map DSkip (dec_cond c)
-      else if String.eqb t "include" then option_map DInclude (dec_cond c)
-      else None
+  | SL [SSym t; c; dp; vp] =>
+      match dec_cond c, dec_pos dp, dec_pos vp with
+      | Some c', Some dp', Some vp' =>
+          if String.eqb t "skip" then Some (DSkip c' dp' vp')
+          else if String.eqb t "include" then Some (DInclude c' dp' vp')
+          else None
+      | _, _, _ => None
+      end
   | _ => None
   end.
 
@@ -187,7 +191,7 @@ Definition dec_doc (s : sexp) : option document :=
 
 Definition dec_env (s : sexp) : option env :=
   match s with
-  | SL l => map_opt (dec_named as_bool) l
+  | SL l => map_opt (dec_named (fun x => if is_sym "null" x then Some None else option_map Some (as_bool x))) l
   | _ => None
   end.
 
